@@ -14,6 +14,12 @@ func Run(fam string, line []byte) ([]Ev, error) {
 			return nil, err
 		}
 		return RunReader(&p), nil
+	case "writer":
+		var p WProg
+		if err := json.Unmarshal(line, &p); err != nil {
+			return nil, err
+		}
+		return RunWriter(&p), nil
 	}
 	return nil, fmt.Errorf("unknown family %q", fam)
 }
